@@ -154,7 +154,22 @@ def check_walker(fn, what, kind, bad):
             bad('C15-no-recursion', f'{what} calls itself: depth is limited by the Python stack')
     # loop condition: while W
     node = loop[1]
-    if not (isinstance(node, ast.While) and isinstance(node.test, ast.Name) and ('OBJ', node.test.id) == W):
+    if isinstance(node, ast.While) and isinstance(node.test, ast.Name) and ('OBJ', node.test.id) == W:
+        pass
+    elif isinstance(node, ast.While) and isinstance(node.test, ast.Constant) and node.test.value is True:
+        # `while True:` leaving through `if not <stack>: return/break` before anything else happens
+        leave = [bp for bp in body if bp.end[0] in ('return', 'break') and bp.tests()
+                 and bp.tests()[0][1] == W and not bp.tests()[0][2]
+                 and not [s for s in bp.steps if s[0] in ('E', 'X', 'Y')]]
+        stay = [bp for bp in body if bp not in leave]
+        if not leave or not all(bp.tests() and bp.tests()[0][1] == W and bp.tests()[0][2]
+                                and bp.steps.index(bp.tests()[0]) == 0 for bp in stay):
+            raise AnalysisError(f'{what}: the work loop is neither `while <stack>` nor `while True` left by '
+                                f'`if not <stack>` first thing')
+        if any(bp.end[0] == 'return' and len(bp.end) > 1 and bp.end[1] != ('CONST', 'None') for bp in leave):
+            raise AnalysisError(f'{what}: the work loop returns a value')
+        body = stay
+    else:
         raise AnalysisError(f'{what}: the work loop is not `while <stack>`')
     NODE = ('CALL', ('ATTR', W, 'pop'))
     for bp in body:
@@ -282,6 +297,13 @@ def check_visit(fn, what, bad):
 
 def check_traverse(fn, what, bad):
     paths, body, W, REC, helpers, stats = check_walker(fn, what, 'traverse', bad)
+    # the record may be unpacked instead of read by field name; comprehensions may be staged
+    sig = P.RECORD_SIGS.get('_Traversing')
+    unpack = {('UNPACK', REC, i): ('ATTR', REC, f) for i, f in enumerate(sig or ())}
+
+    def norm_term(t):
+        return P.fuse_comprehensions(substitute(t, unpack))
+    body = [P.map_path(bp, norm_term) for bp in body]
     fin = [bp for bp in body if any(s[2] and s[1] == ('ATTR', REC, 'is_finished') for s in bp.tests())]
     ent = [bp for bp in body if any((not s[2]) and s[1] == ('ATTR', REC, 'is_finished') for s in bp.tests())]
     if not fin or not ent:
@@ -438,6 +460,18 @@ def check_transform(fns, what, bad):
             want = ('COMP', 'ListComp', self_call(('ITEM', 'x')), ('GEN', 'x', N))
             ok = isinstance(ret, tuple) and ret[:2] == ('COMP', 'ListComp') and len(ret) == 4 \
                 and ret[3][2] == N and substitute(ret[2], {('ITEM', ret[3][1]): ('ITEM', 'x')}) == want[2]
+            if not ok and isinstance(ret, tuple) and ret[:1] == ('OBJ',):
+                # the same list built by an explicit loop: r = []; for x in node: r.append(_transform(x, cb))
+                made = [e for e in p.events('assign') if e[2] == ret[1]]
+                lps = [s for s in p.steps if s[0] == 'LOOP']
+                ok = len(made) == 1 and made[0][3] in (('LIST',), ('CALL', ('VAR', 'list'))) and len(lps) == 1 \
+                    and isinstance(lps[0][1], ast.For) and E.val(lps[0][1].iter, {params[0]: N}) == N \
+                    and len(lps[0][2]) == 1 and lps[0][2][0].end[0] == 'continue'
+                if ok:
+                    ev = [s for s in lps[0][2][0].steps if s[0] == 'E' and s[1] != 'assign']
+                    ok = len(ev) == 1 and ev[0][1] == 'call:append' and ev[0][2] == ret \
+                        and ev[0][3] == (self_call(('ITEM', N)),)
+                ok = ok and not [s for s in p.steps if s[0] == 'E' and s[1] != 'assign']
             if not ok:
                 bad('C16-lists', f'{what}: a list is rebuilt as {P.tfmt(ret)}, expected '
                                  f'[_transform(x, callback) for x in node]')
